@@ -593,6 +593,14 @@ package helper
 //@ ensures[C01,C15] rmaS(a, P, k) >= 0
 //@ induction k
 //@ use psum_nonneg(a, P)
+//@ lemma ema_nonneg(a stream, P int, m real, k int)
+//@ requires[C01,C15] P >= 1 && k >= 0 && 0 <= m && m <= 1 && (forall j :: 0 <= j && j < k + P ==> a[j] >= 0)
+//@ ensures[C01,C15] emaS(a, P, m, k) >= 0
+//@ induction k
+//@ use psum_nonneg(a, P)
+//@ lemma ratio01(x real, y real)
+//@ requires[C01,C15] 0 <= x && x <= y && y > 0
+//@ ensures[C01,C15] 0 <= x / y && x / y <= 1
 //@ lemma rma_nonpos(a stream, P int, k int)
 //@ requires[C01,C15] P >= 1 && k >= 0 && (forall j :: 0 <= j && j < k + P ==> a[j] <= 0)
 //@ ensures[C01,C15] rmaS(a, P, k) <= 0
@@ -611,6 +619,10 @@ package helper
 //@ lemma since_nonneg(a stream, k int)
 //@ ensures[C01,C15] since(a, k) >= 0
 //@ induction k
+//@ lemma devsq_cong(a stream, b stream, lo int, hi int, mu real)
+//@ requires[C01,C15] forall j :: lo <= j && j < hi ==> a[j] == b[j]
+//@ ensures[C01,C15] devsq(a, lo, hi, mu) == devsq(b, lo, hi, mu)
+//@ induction hi from lo
 //@ lemma rma_cong(a stream, b stream, P int, k int)
 //@ requires[C01,C15] P >= 1 && k >= 0 && (forall j :: 0 <= j && j < k + P ==> a[j] == b[j])
 //@ ensures[C01,C15] rmaS(a, P, k) == rmaS(b, P, k)
@@ -664,5 +676,17 @@ package helper
 //@ requires[C15] 0 - 1 <= m && m <= 1 && v >= 0
 //@ ensures[C15] 0 - v <= m * v && m * v <= v
 
+//@ lemma psum_window_pos(a stream, lo int, hi int)
+//@ requires[C01,C15] 0 <= lo && lo < hi && (forall j :: lo <= j && j < hi ==> a[j] > 0)
+//@ ensures[C01,C15] psum(a, hi) - psum(a, lo) > 0
+//@ induction hi from lo
+//@ lemma ratio_nonneg(x real, y real)
+//@ requires[C15] x >= 0 && y > 0
+//@ ensures[C15] x / y >= 0
+
 // a valid bar: low <= close <= high
 //@ macro barok(h, l, c, i) = l[i] <= c[i] && c[i] <= h[i]
+
+// ---- documented formulas shared by several indicators, as derived streams ------------------------------------------
+// simple moving average over P values ending at position k+P-1
+//@ stream smaS(c stream, P int)[k] = (psum(c, k + P) - psum(c, k)) / P
